@@ -159,6 +159,107 @@ def render_c11(inst):
                 L.append(' augment "/%st%s/%sk%s" { leaf x%s { type string; } }' % (p, a["t"], p, a["n"], u))
         return L
 
+    def scope_lines(h, m):
+        """The scope "m.x": its definitions and using data nodes inside the statement that holds them, reached through the
+        statements of inst["spath"] (outermost first; CompilePipeline.tla, I.spath).  Returns (lines, lines for the top level)."""
+        x = h.split(".", 1)[1]
+        sp = inst.get("spath") or ["container"]
+        own = (pfx(m) + ":") if inst.get("spell", "u") != "u" else ""
+        lines = ["leaf l0 { type string; }"] + def_lines(h, m, "") + root_lines(h, m, "")
+        extra = []
+        for i in reversed(range(len(sp))):
+            w = sp[i]
+            nm = x if i == len(sp) - 1 else "v%d%s" % (i + 1, x)
+            tag = "%d%s" % (i + 1, x)
+            if w == "container":
+                lines = ["container %s {" % nm] + lines + ["}"]
+            elif w == "list":
+                lines = ["list %s { key id; leaf id { type string; }" % nm] + lines + ["}"]
+            elif w == "choice":
+                lines = ["choice o%s { case w%s {" % (tag, tag)] + lines + ["} }"]
+            elif w == "short":
+                lines = ["choice o%s {" % tag] + lines + ["}"]
+            elif w in ("input", "output"):
+                lines = ["rpc %s { %s {" % (nm, w)] + lines + ["} }"]
+            elif w == "notification":
+                lines = ["notification %s {" % nm] + lines + ["}"]
+            elif w == "grouping":
+                lines = ["grouping %s {" % nm] + lines + ["}", "uses %s;" % nm]
+            elif w == "augment":
+                lines = ["container %s { }" % nm, 'augment "/%s%s" {' % (own, nm)] + lines + ["}"]
+            elif w == "uaugment":
+                extra.append("grouping h%s { container %s { } }" % (tag, nm))
+                lines = ["uses h%s { augment %s {" % (tag, nm)] + lines + ["} }"]
+            else:
+                raise Infra("unknown scope path element " + w)
+        return [" " + l for l in lines], [" " + l for l in extra]
+
+    ILL_DESC = {"container": "ec", "leaf": "ec/el", "leafnd": "ec/em", "leaf-list": "ell", "list": "eq", "choice": "eo", "case": "eo/ew",
+                "none": "ez", "nonedeep": "ec/ez"}
+    ILL_UNIQ = {"leaf": "ev", "nested": "en/y", "container": "en", "none": "ez"}
+
+    def ill_id(x, unit):
+        """The schema node id of the statement x written in module `unit`: of the KIND x.arg (descendant: no leading slash,
+        relative to the uses / the list - or, where an absolute one is required, the same steps from the root without the slash)."""
+        p = imp_pfx(inst, unit, "m1") + ":" if unit != "m1" else (pfx("m1") + ":" if inst.get("spell", "u") != "u" else "")
+        if x["site"] == "unique":
+            steps, root = ILL_UNIQ[x["tgt"]].split("/"), ["eu"]
+        else:
+            steps, root = ILL_DESC[x["tgt"]].split("/"), (["eh", "input"] if x["at"] == "rpc" else ["eh"])
+        need_abs = x["site"] in ("augment", "deviation")
+        if x["arg"] == "abs":
+            return "/" + "/".join(p + t for t in root + steps)
+        return "/".join(p + t for t in ((root + steps) if need_abs else steps))
+
+    def ill_lines(m):
+        """(host and statement lines of module m, CompilePipeline.tla "ill-formed statements")"""
+        ill = inst.get("ill") or []
+        if not ill:
+            return []
+        L = []
+        at = ill[0]["at"]
+        sub = []            # substatements of the uses of the host grouping
+        uniq = ""
+        for x in ill:
+            if x["m"] != m:
+                continue
+            a = ill_id(x, m)
+            if x["site"] == "uses-augment":
+                sub.append('augment "%s" { leaf ea { type string; } }' % a)
+            elif x["site"] == "refine":
+                val = {"default": "default ew;" if x["tgt"] == "choice" else 'default "dr";', "mandatory": "mandatory true;", "presence": 'presence "x";',
+                       "description": 'description "x";', "min-elements": "min-elements 1;"}[x["prop"]]
+                sub.append('refine "%s" { %s }' % (a, val))
+            elif x["site"] == "unique":
+                uniq = ' unique "%s";' % a
+        if m == "m1":
+            L.append(' grouping eg { container ec { leaf el { type string; default "d0"; } leaf em { type string; } } leaf-list ell { type string; }'
+                     ' list eq { key id; leaf id { type string; } leaf ev { type string; } }'
+                     ' choice eo { case ew { leaf ex { type string; } } case ew2 { leaf ex2 { type string; } } } }')
+            u = "uses eg { %s }" % " ".join(sub) if sub else "uses eg;"
+            if at == "data":
+                L.append(" container eh { %s }" % u)
+            elif at == "grouping":
+                L.append(" grouping eg2 { %s }" % u)
+                L.append(" container eh { uses eg2; }")
+            elif at == "case":
+                L.append(" container eh { choice ec0 { case ec1 { %s } } }" % u)
+            elif at == "rpc":
+                L.append(" rpc eh { input { %s } }" % u)
+            else:
+                raise Infra("unknown place " + at)
+            L.append(" list eu { key id; leaf id { type string; } leaf ev { type string; } container en { leaf y { type string; } }%s }" % uniq)
+        for x in ill:
+            if x["m"] != m:
+                continue
+            if x["site"] == "augment":
+                L.append(' augment "%s" { leaf eb { type string; } }' % ill_id(x, m))
+            elif x["site"] == "deviation":
+                how = {"not-supported": "deviate not-supported;", "replace": 'deviate replace { default "dv"; }', "add": 'deviate add { default "dv"; }',
+                       "delete": 'deviate delete { default "d0"; }'}[x["prop"]]
+                L.append(' deviation "%s" { %s }' % (ill_id(x, m), how))
+        return L
+
     for m in sorted(inst["mods"]):
         L = ["module %s {" % m, ' namespace "urn:%s";' % m, " prefix %s;" % pfx(m)]
         for a, t in sorted(inst["imp"]):
@@ -175,11 +276,9 @@ def render_c11(inst):
         L += top_root_lines(m)
         scopes = sorted(set(x["home"] for x in inst["defs"] + inst["roots"] if x["home"].startswith(m + ".")))
         for h in scopes:
-            L.append(" container %s {" % h.split(".", 1)[1])
-            L.append("  leaf l0 { type string; }")
-            L += def_lines(h, m, "  ")
-            L += root_lines(h, m, "  ")
-            L.append(" }")
+            sl, extra = scope_lines(h, m)
+            L += extra + sl
+        L += ill_lines(m)
         L += aug_lines(m)
         for d in sorted(inst["devs"], key=lambda d: (d["m"], d["t"], d["n"], d["how"])):
             if d["m"] == m:
@@ -274,7 +373,11 @@ def split_runs(ctx, lines, nchunks, stem):
 
 def validate(ctx, module, cfg, lines, nproc, stem, delay=0.0):
     """Run a *Trace spec over the event lines (chunked at run boundaries, in parallel)."""
-    chunks = split_runs(ctx, lines, nproc, stem)
+    return validate_chunks(ctx, module, cfg, split_runs(ctx, lines, nproc, stem), nproc, delay)
+
+
+def validate_chunks(ctx, module, cfg, chunks, nproc, delay=0.0):
+    """chunks: [(file of event lines, runs in it, events in it)], each validated by its own TLC."""
     fails, runs, events = [], 0, 0
 
     def one(ich):
@@ -386,7 +489,7 @@ def run_c11(ctx):
     def gen():
         time.sleep(0.6)
         return ctx.tlc("CompilePipelineGen", "CompilePipelineGen.cfg", workers=5, timeout=1500, heap="8g",
-                       consts={"Size": '"%s"' % size, "NSample": nsample, "NCombo": 150 if quick else 3000}, extra=["-seed", str(ctx.seed)])
+                       consts={"Size": '"%s"' % size, "NSample": nsample, "NCombo": 150 if quick else 3000, "NScoped": 120 if quick else 3000}, extra=["-seed", str(ctx.seed)])
 
     with cf.ThreadPoolExecutor(max_workers=3) as ex:
         futs = [ex.submit(f) for f in (mc, mc_any, gen)]
@@ -406,50 +509,110 @@ def run_c11(ctx):
     write_ndjson(cin, cases)
     K = 6 if quick else 16
     ctx.run_bin("cc", ["run", "-in", cin, "-out", cout, "-k", str(K), "-workers", "14"], timeout=2400)
-    res = read_ndjson(cout)
-    if len(res) != len(cases):
-        raise Infra("cc run returned %d results for %d cases" % (len(res), len(cases)))
+    # The results are streamed (one line per case, in case order): nothing of a result is kept but counters and the outcome
+    # of the schema comparison; its trace lines go straight into the chunk files of the validator (cut at instance boundaries).
+    # (All results at once - K event lists and a dump per case - took 10 GB in the thorough tier.)
     # C11 quantifies over sets of PARSEABLE modules: an instance the parser refuses is outside the property.
     # The parser keeps the groupings / typedefs of all sibling statements in one symbol table, so the same name
     # in two sibling scopes (legal YANG) and a scope shadowing the top level (illegal) both end as parse errors.
-    # Only instances with scoped definitions may end like this; anything else is a fault of the renderer.
-    unparseable = 0
-    keep = []
-    for v, c, o in zip(vecs, cases, res):
-        if any(r["verdict"] == "parse-error" for r in o["runs"]):
-            if not any("." in d["home"] for d in v["inst"]["defs"]):
-                raise Infra("rendered modules do not parse: " + o["runs"][0]["err"][:300] + "\n" + c["mods"][0]["text"])
-            if len(set(r["verdict"] for r in o["runs"])) == 1:
-                unparseable += 1
-                continue
-        keep.append((v, c, o))
-    # 3. trace: one run = init, phase events, end
-    lines = []
+    # Likewise the wrong kind of schema node id (absolute for descendant and vice versa): this parser refuses it for refine,
+    # unique and deviation.  Only instances the spec marks (mayNotParse: scoped definitions, wrong kind of id) may end like
+    # this; anything else is a fault of the renderer.
+    nchunks = 10
+    per = max(1, (len(cases) + nchunks - 1) // nchunks)
+    os.makedirs(ctx.path("chunks"), exist_ok=True)
+    chunk_info = []                  # [path, runs, events, file]
+    head, head_runs = [], 0          # the first runs, for the binding self tests
+    unparseable = nres = ncomp = raw_differs = nschema = 0
     orders_seen = set()
-    raw_differs = 0
-    for v, c, o in keep:
-        if len(set(r["raw"] for r in o["runs"] if r["verdict"] == "ok")) > 1:
-            raw_differs += 1
-        for j, r in enumerate(o["runs"]):
-            lines.append(json.dumps(dict(ev="init", id=c["id"], run=j, inst=v["inst"]), separators=(",", ":")))
-            for e in r["events"]:
-                lines.append(json.dumps(dict(ev="phase", id=c["id"], phase=e["phase"], key=e["key"]), separators=(",", ":")))
-            lines.append(json.dumps(dict(ev="end", id=c["id"], verdict=r["verdict"], dump=r["dump"] or "-"), separators=(",", ":")))
-            orders_seen.add((c["id"], json.dumps([(e["phase"], e["key"]) for e in r["events"]])))
+    schema_diff = []                 # (case id, compiled schema) where the compiled schema is not the spec's
+    with open(cout) as f:
+        for i, line in enumerate(f):
+            if not line.strip():
+                continue
+            if i >= len(cases):
+                raise Infra("cc run returned more results than cases")
+            o = json.loads(line)
+            v, c = vecs[i], cases[i]
+            if o["id"] != c["id"]:
+                raise Infra("cc run: result %d is for case %s" % (i, o["id"]))
+            nres += 1
+            ncomp += len(o["runs"])
+            if any(r["verdict"] == "parse-error" for r in o["runs"]):
+                if not v["mayNotParse"]:
+                    raise Infra("rendered modules do not parse: " + o["runs"][0]["err"][:300] + "\n" + c["mods"][0]["text"])
+                if len(set(r["verdict"] for r in o["runs"])) == 1:
+                    unparseable += 1
+                    continue
+            # 3. trace: one run = init, phase events, end
+            if len(set(r["raw"] for r in o["runs"] if r["verdict"] == "ok")) > 1:
+                raw_differs += 1
+            k = min(i // per, nchunks - 1)
+            while len(chunk_info) <= k:
+                pth = ctx.path("chunks", "c11_%d.ndjson" % len(chunk_info))
+                chunk_info.append([pth, 0, 0, open(pth, "w")])
+            ci = chunk_info[k]
+            inst_json = json.dumps(v["inst"], separators=(",", ":"))
+            for j, r in enumerate(o["runs"]):
+                ls = ['{"ev":"init","id":%d,"run":%d,"inst":%s}' % (c["id"], j, inst_json)]
+                for e in r["events"]:
+                    ls.append(json.dumps(dict(ev="phase", id=c["id"], phase=e["phase"], key=e["key"]), separators=(",", ":")))
+                ls.append(json.dumps(dict(ev="end", id=c["id"], verdict=r["verdict"], dump=r["dump"] or "-"), separators=(",", ":")))
+                ci[3].write("\n".join(ls) + "\n")
+                ci[1] += 1
+                ci[2] += len(ls)
+                if head_runs < 40:
+                    head += ls
+                    head_runs += 1
+                orders_seen.add(hash((c["id"], tuple((e["phase"], e["key"]) for e in r["events"]))))
+            # replay: the compiled schema is the spec's schema
+            if v["verdict"] == "ok" and v["judgeSchema"] and v["judgeVerdict"] and o["runs"] and o["runs"][0]["verdict"] == "ok":
+                nschema += 1
+                real = project(o["first"])
+                if not same_schema(spec_nodes(v["schema"]), real):
+                    schema_diff.append((i, sorted(real)))
+    if nres != len(cases):
+        raise Infra("cc run returned %d results for %d cases" % (nres, len(cases)))
+    for ci in chunk_info:
+        ci[3].close()
+    chunks = [(ci[0], ci[1], ci[2]) for ci in chunk_info if ci[1]]
     with cf.ThreadPoolExecutor(max_workers=3) as ex:
-        fv = ex.submit(validate, ctx, "CompilePipelineTrace", "CompilePipelineTrace.cfg", lines, 10, "c11")
-        f1 = ex.submit(self_test, ctx, "CompilePipelineTrace", "CompilePipelineTrace.cfg", lines, corrupt_verdict, "verdict", "c11st1", 2.0)
-        f2 = ex.submit(self_test, ctx, "CompilePipelineTrace", "CompilePipelineTrace.cfg", lines, corrupt_order, "order:", "c11st2", 2.3)
+        fv = ex.submit(validate_chunks, ctx, "CompilePipelineTrace", "CompilePipelineTrace.cfg", chunks, 10)
+        f1 = ex.submit(self_test, ctx, "CompilePipelineTrace", "CompilePipelineTrace.cfg", head, corrupt_verdict, "verdict", "c11st1", 2.0)
+        f2 = ex.submit(self_test, ctx, "CompilePipelineTrace", "CompilePipelineTrace.cfg", head, corrupt_order, "order:", "c11st2", 2.3)
         fails, runs, events = fv.result()
         f1.result()
         f2.result()
     ctx.traces += runs
+    # (the results of the failing cases are read again for the replay records)
+    res = {}
+    want_ids = set(f["id"] for f in fails)
+    if want_ids:
+        with open(cout) as f:
+            for line in f:
+                m = re.match(r'\{"id":(\d+),', line)
+                if m and int(m.group(1)) in want_ids:
+                    res[int(m.group(1))] = json.loads(line)
 
     def sig_of(v, what, got):
         I = v["inst"]
-        return dict(site="compile", fam=I["fam"], shape=re.sub(r"-no(import|module)$", "", I["shape"]) if I["fam"] in KINDS else "",
-                    what=what, want=v["verdict"], got=got, defects="|".join(sorted(v["defects"])), spell=I.get("spell", "u"),
-                    scoped=any("." in x["home"] for x in I["defs"] + I["roots"]))
+        sig = dict(site="compile", fam=I["fam"], shape=re.sub(r"-no(import|module)$", "", I["shape"]) if I["fam"] in KINDS else "",
+                   what=what, want=v["verdict"], got=got, defects="|".join(sorted(v["defects"])), spell=I.get("spell", "u"),
+                   scoped=any("." in x["home"] for x in I["defs"] + I["roots"]))
+        if sig["scoped"] and I.get("spath", ["container"]) != ["container"]:
+            sig["spath"] = ">".join(I["spath"])
+        for x in I.get("ill", []):
+            sig["ill"] = "%s:%s-id:%s%s" % (x["site"], x["arg"], x["tgt"], ":" + x["prop"] if x["site"] in ("refine", "deviation") else "")
+        return sig
+
+    def where(I):
+        """(for the report line) how the scope of a scoped instance is reached / what the one odd statement of an ill-formed one is"""
+        t = ""
+        if any("." in x["home"] for x in I["defs"] + I["roots"]) and I.get("spath", ["container"]) != ["container"]:
+            t += ", definitions scoped in " + " > ".join(I["spath"])
+        for x in I.get("ill", []):
+            t += ", %s with %s schema node id naming %s" % (x["site"], "an absolute" if x["arg"] == "abs" else "a descendant", x["tgt"])
+        return t
 
     seen = set()
     for f in fails:
@@ -464,23 +627,17 @@ def run_c11(ctx):
         sig = sig_of(v, what, got)
         if what in ("crash", "timeout") and bad:
             sig["crash"] = re.sub(r"\s+", " ", bad["err"])[:60]
-        ctx.disagree(sig, f"{what} on a {v['inst']['fam']}/{v['inst']['shape']} instance: spec {v['verdict']}, code {got}",
+        ctx.disagree(sig, f"{what} on a {v['inst']['fam']}/{v['inst']['shape']} instance{where(v['inst'])}: spec {v['verdict']}, code {got}",
                      dict(kind="trace", failure=f, modules=c["mods"], off=c["off"], spec=dict(verdict=v["verdict"], schema=v["schema"]),
                           runs=[dict(order=r["order"], verdict=r["verdict"], err=r["err"][:300], dump=r["dump"]) for r in o["runs"][:6]],
                           how="save {id,mods,off} as case.json; <scratch>/bin/cc one case.json (VERIF_KEEP=1 bin/check C11)"))
-    # replay: the compiled schema is the spec's schema
-    nschema = 0
-    for v, c, o in keep:
-        if v["verdict"] == "ok" and v["judgeSchema"] and v["judgeVerdict"] and o["runs"] and o["runs"][0]["verdict"] == "ok" and (v and c["id"]) not in seen:
-            nschema += 1
-            real = project(json.loads(json.dumps(o["first"])))
-            if not same_schema(spec_nodes(v["schema"]), real):
-                ctx.disagree(sig_of(v, "schema", "ok"), f"compiled schema differs from the spec's on a {v['inst']['fam']}/{v['inst']['shape']} instance",
-                             dict(kind="replay", modules=c["mods"], off=c["off"], want=sorted(spec_nodes(v["schema"])), got=sorted(real)))
+    for i, real in schema_diff:
+        v, c = vecs[i], cases[i]
+        ctx.disagree(sig_of(v, "schema", "ok"), f"compiled schema differs from the spec's on a {v['inst']['fam']}/{v['inst']['shape']} instance{where(v['inst'])}",
+                     dict(kind="replay", modules=c["mods"], off=c["off"], want=sorted(spec_nodes(v["schema"])), got=real))
     per_fam = {}
     for v in vecs:
         per_fam[v["inst"]["fam"]] = per_fam.get(v["inst"]["fam"], 0) + 1
-    ncomp = sum(len(o["runs"]) for o in res)
     samples = [dict(fam=v["inst"]["fam"], shape=v["inst"]["shape"], verdict=v["verdict"], text=c["mods"][0]["text"][:400])
                for v, c in list(zip(vecs, cases))[:: max(1, len(vecs) // 3)][:3]]
     cov = dict(evaluations=ncomp, distinct_nontrivial=len(vecs), instances_per_family=per_fam,
@@ -489,7 +646,11 @@ def run_c11(ctx):
                samples=samples, compilations_per_instance=K, distinct_event_orders_observed=len(orders_seen),
                trace_events=events, schema_compared=nschema, instances_whose_raw_api_order_differs=raw_differs,
                expect_error=sum(1 for v in vecs if v["verdict"] == "error"), expect_ok=sum(1 for v in vecs if v["verdict"] == "ok"),
-               unparseable_unjudged=unparseable, twin_instances=sum(1 for v in vecs if v["inst"]["shape"].startswith("twin")),
+               unparseable_unjudged=unparseable, scope_paths_used=len(set(">".join(v["inst"].get("spath", [])) for v in vecs if v["inst"]["shape"].startswith("scoped"))),
+               scoped_instances=sum(1 for v in vecs if v["inst"]["shape"].startswith("scoped")),
+               illformed_statement_instances=sum(1 for v in vecs if v["inst"].get("ill")),
+               wrong_kind_of_schema_node_id=sum(1 for v in vecs if any(x["arg"] != ("desc" if x["site"] in ("uses-augment", "refine", "unique") else "abs") for x in v["inst"].get("ill", []))),
+               twin_instances=sum(1 for v in vecs if v["inst"]["shape"].startswith("twin")),
                verdict_unjudged=sum(1 for v in vecs if not v["judgeVerdict"]), schema_unjudged=sum(1 for v in vecs if v["verdict"] == "ok" and not v["judgeSchema"]),
                exhaustive=not quick,
                explanation="TLC explored every order of every loop of the pipeline for every instance (states/transitions) and checked termination and "
